@@ -99,7 +99,7 @@ def runDefs : List DefIn → List (Str × Str) → List Str → List String → 
   | [], _, texts, out => (texts.reverse, out.reverse)
   | d :: rest, env, texts, out =>
     let text := writeToken d.name d.tok
-    match evalDef (lookup env) text with
+    match evalBlock (lookup env) text with
     | some (n, v) =>
       if n = d.name then
         let env' := match v with
